@@ -120,6 +120,9 @@ class DocGen:
         for o in objs:
             self._bind(o)
         doc = Doc(root, type_name)
+        # one document in six also carries a warning (the Qt 5 style versioned import): accepted documents stay accepted,
+        # and an error next to a warning is still an error
+        doc.import_version = rng.choice(("", "", "", "", "", " 6.2"))
         doc.print(rng)
         return doc
 
@@ -715,7 +718,7 @@ class Doc:
         def nl(ind):
             emit("\n" + "    " * ind)
 
-        emit("import qmluic.QtWidgets\n")
+        emit("import qmluic.QtWidgets%s\n" % getattr(self, "import_version", ""))
         if rng.random() < 0.2:
             emit("// generated case\n")
 
